@@ -45,7 +45,7 @@ THEOREMS = [
 ]
 RULE = ("shim seam, EXHAUSTIVE over the finite universe U: family A = every array dimension shape with 1-4 items "
         "x kind (MR, MR with view insertions, CA, numeric array) x element-id pattern (positions, 1..n, reversed, "
-        "sparse, with negatives) x every subset of inserted(anchored)/derived items, collision-free spellings; "
+        "sparse, with negatives) x every subset of inserted (anchored) items x derived flags (= anchored | all | complement), collision-free spellings; "
         "family B = the same shapes with deliberate collisions (decimal sub-variable ids as in real MR-insertion "
         "payloads, sub-variable id = another item's alias, alias = another item's decimal id / position); for each "
         "dimension: every spelling of every item + positions + stale + malformed references through `translate`, "
@@ -118,6 +118,7 @@ def universe():
                 if kind == "MR_INS":
                     for anchors in itertools.product((0, 1), repeat=n):
                         out.append(("A", kind, n, idpat, anchors, "pad", "plain", None))
+                        out.append(("A", kind, n, idpat, anchors, "pad", "plain", tuple([1] * n)))
                 elif kind == "MR":
                     out.append(("A", kind, n, idpat, None, "pad", "plain", None))
                     out.append(("A", kind, n, idpat, None, "hex", "plain", tuple(int(i == 0) for i in range(n))))
@@ -137,6 +138,11 @@ def universe():
                             if sv == "pad" and al == "plain":
                                 continue
                             out.append(("B", kind, n, idpat, anchors, sv, al, None))
+                            if kind == "MR_INS":
+                                # `derived` is independent of `anchor`: a derived MR variable (every real
+                                # sub-variable derived), and derived exactly on the NON-inserted items
+                                out.append(("B", kind, n, idpat, anchors, sv, al, tuple([1] * n)))
+                                out.append(("B", kind, n, idpat, anchors, sv, al, tuple(1 - a for a in anchors)))
     return out
 
 
